@@ -6,10 +6,12 @@ from vlib.sel import sel, concrete
 import formulas
 from formulas.errors import FormulaError
 
-V = ['1', '"a"', 'A1', '#REF!', '+', '-', '*', '%', '^', '&', '=', ' ', ':', '(', ')', ',', 'SUM(', '{', '}', ';', '\t', '\n']
+V = ['1', '"a"', 'A1', '#REF!', '+', '-', '*', '%', '^', '&', '=', ' ', ':', '(', ')', ',', 'SUM(', '{', '}', ';', '\t', '\n', '#n/a']
 NV = len(V)
 PREFIX = __PREFIX__        # indices of the leading tokens fixed in this copy
-OPERANDS = (0, 1, 2, 3)
+OPERANDS = (0, 1, 2, 3, 22)
+LITERALS = (1, 3, 22)      # text and error literals never fuse with a neighbour
+KNOWN_COLON = __KNOWN_COLON__
 P = formulas.Parser()
 
 
@@ -48,12 +50,12 @@ def must_reject(seq):
     if depth or brace:
         return True                                   # unbalanced parentheses / braces
     for a, b in zip(seq, seq[1:]):
-        if a in OPERANDS and b in OPERANDS and (a in (1, 3) or b in (1, 3)) and (a, b) != (1, 1):
+        if a in OPERANDS and b in OPERANDS and (a in LITERALS or b in LITERALS) and (a, b) != (1, 1):
             return True                               # two adjacent operands (text / error literal cannot fuse;
             #                                           "a""a" is ONE text with an escaped quote)
         if V[a] in ('%', ')', '}') and (b in OPERANDS or V[b] in ('(', 'SUM(', '{')):
             return True                               # a value directly after a postfix % or a closing bracket
-        if a in OPERANDS and V[b] in ('(', 'SUM(', '{') and a in (1, 3):
+        if a in OPERANDS and V[b] in ('(', 'SUM(', '{') and a in LITERALS:
             return True                               # an opening bracket / call directly after text or an error literal
     # ragged array rows: inside one pair of braces (no nested brackets) every row has
     # the same number of top-level commas
@@ -76,6 +78,13 @@ def must_reject(seq):
                 return True
             i = j
         i += 1
+    for a, b in zip(seq, seq[1:]):
+        if V[a] in (',', ';', '(', 'SUM(', '{') and V[b] in ('*', '^', '&', '='):
+            return True                               # a binary operator whose left operand is missing
+        if not KNOWN_COLON and V[b] == ':' and not (a in (0, 2) or V[a] in (')', ' ')):
+            return True                               # the range operator without a first corner (known finding when excluded)
+    if not KNOWN_COLON and V[seq[0]] == ':':
+        return True
     if V[seq[-1]] in ('+', '-', '*', '^', '&', '='):
         return True                                   # operator without right operand
     if V[seq[0]] in ('*', '^', '&', '=', '%'):
